@@ -46,6 +46,17 @@ pub fn programs12() -> Vec<Prog> {
     p.push(Some("high"), Stmt::Fill(Lit::hex(0xFE10)));
     p.push(Some("data"), Stmt::Fill(Lit::hex(0x0000)));
     v.push(Prog::new("stores-outside-user-space", p, true));
+    // loaded across xFE00: code in the last words of user space, data (and the implicit HALT)
+    // above it - the saved initial state must hold those words too
+    let mut p = Program::default();
+    p.items.push(Item::Orig(Lit::hex(0xFDFB)));
+    p.push(Some("first"), Stmt::Mem(PcRel::Lea, 0, lbl("data")));
+    p.push(Some("slot"), Stmt::Named(0x22, "puts"));
+    p.push(None, Stmt::Add(1, 1, Src2::Imm(Lit::dec(1))));
+    p.push(Some("end"), Stmt::Named(0x25, "halt"));
+    p.push(None, Stmt::Fill(Lit::hex(0x1234)));
+    p.push(Some("data"), Stmt::Stringz("Hi".into()));
+    v.push(Prog::new("loaded-across-xFE00", p, true));
     v
 }
 
